@@ -650,9 +650,10 @@ def shards(tier: str) -> list:
     # H20c
     n = 4 if quick else 5
     for init in (0, 1, 2):
+        ni = n - 1 if (quick and init > 0) else n  # quick: managers that start with a supplied instance get one op less
         for op0 in range(NOPS):
-            out.append({"fn": "h20c_ownership", "env": {"INIT": init, "OP0": op0, "NOPSEQ": n}, "cond_timeout": 300 if quick else 1500,
-                        "desc": f"ZeroconfManager op sequences of length {n}, initial state {init}, first op {op0}"})
+            out.append({"fn": "h20c_ownership", "env": {"INIT": init, "OP0": op0, "NOPSEQ": ni}, "cond_timeout": 300 if quick else 1500,
+                        "desc": f"ZeroconfManager op sequences of length {ni}, initial state {init}, first op {op0}"})
     if not quick:
         for op0 in (OP_GET, OP_CLOSE, OP_SET_ASYNC, OP_RESOLVE_OK, OP_RESOLVE_ERR):
             out.append({"fn": "h20c_ownership", "env": {"INIT": 0, "OP0": op0, "NOPSEQ": 6, "OPTAB": "0,1,2,4,5"}, "cond_timeout": 1500,
@@ -664,7 +665,7 @@ BOUNDS = {
     "quick": {
         "H20a": "every str of length <= 8; prefix of length <= 3 + 13 endings",
         "H20b": "1..2 hosts x 8 forms (IPv4, IPv6 compressed, IPv6 full upper-case, IPv6%numeric scope, bare, name.local, name.local., FQDN) x mDNS {v4, v6, both, none, request error, cannot create sockets} x OS {v4, v6, unknown family, mixed, empty, OSError}; port symbolic in 1..65535; manager None / supplied AsyncZeroconf (2 hosts), empty manager / supplied Zeroconf (1 host)",
-        "H20c": "all sequences of 4 operations out of {get, close, set_instance(AsyncZeroconf), set_instance(Zeroconf), resolve ok, resolve error, resolve with socket-creation error} from 3 initial managers",
+        "H20c": "all sequences of 4 operations out of {get, close, set_instance(AsyncZeroconf), set_instance(Zeroconf), resolve ok, resolve error, resolve with socket-creation error} from an empty manager, of 3 operations from managers constructed with a supplied AsyncZeroconf / Zeroconf",
     },
     "thorough": {
         "H20a": "every str of length <= 11; prefix <= 6 + 13 endings",
